@@ -80,6 +80,9 @@ class Sweeper:
         except Exception:
             pass
         self.functions = self._functions()
+        # programs may assign to names of the base environment (compare = 5):
+        # the bindings are put back after every run
+        self._base_map = dict(self.it.base_environment.map)
         self.pid = os.getpid()
         import atexit
         atexit.register(self.close)
@@ -222,8 +225,11 @@ class Sweeper:
         self.out.seek(0)
         self.out.truncate()
         try:
-            with time_limit(budget):
-                v = self.it.interpret(src, "sweep.ckl", env)
+            try:
+                with time_limit(budget):
+                    v = self.it.interpret(src, "sweep.ckl", env)
+            finally:
+                self._restore_base()
             bad = self.badvalue(v)
             if bad:
                 return ("badvalue", bad)
@@ -236,8 +242,8 @@ class Sweeper:
                             + type(text).__name__)
             except CaseTimeout:
                 return ("timeout",)
-            except RecursionError:
-                pass
+            except (RecursionError, CklRuntimeError):
+                pass        # a _str_ hook may raise, like string(v) would
             except Exception as e:
                 return ("host", type(e).__name__ + " while rendering the "
                         "result", cklrun.repo_frame(e.__traceback__),
@@ -265,6 +271,14 @@ class Sweeper:
         except BaseException as e:
             return ("host", type(e).__name__,
                     cklrun.repo_frame(e.__traceback__), str(e)[:200])
+
+    def _restore_base(self):
+        m = self.it.base_environment.map
+        saved = self._base_map
+        if len(m) != len(saved) or any(m.get(k) is not v
+                                       for k, v in saved.items()):
+            m.clear()
+            m.update(saved)
 
     def badvalue(self, v, depth=0, seen=None):
         """Return a description if v (or something inside, to depth 4) is not
